@@ -31,7 +31,9 @@ MANIFEST = {
             "no ARP exemption, then the list chosen by the destination; a broadcast on the DMZ port is dropped before the look-ups). "
             "Liveness: a ping and a service request/reply between two hosts joined by WARM paths of any number of switches, routers "
             "and firewalls in any order, every verdict permitting, succeed; with COLD caches a ping between two hosts on one switched "
-            "LAN (other ports silent, switch table arbitrary) succeeds, the whole ARP cascade included. Tie: constants, comparison "
+            "LAN (other ports dead or other hosts, switch table arbitrary) and a ping host - router - host over direct cables (all "
+            "three caches empty, the router's nested ARP exchange inside process_frame included) succeed, every ARP cascade part of "
+            "the statement. Tie: constants, comparison "
             "operators, acceptance tests, call order and what the ranking argument rests on (DMZ broadcast guard, routers resolve "
             "without ARP, replies start nothing, ARP pairs genuine, find_best_route pure) regenerated from the source "
             "(Gen/Forward.lean) + rigs R-route and R-net (whole event streams, results and final tables of generated topologies "
@@ -40,8 +42,9 @@ MANIFEST = {
     "note": "C08-specific: the termination theorem needs GoodCfg (unique MACs, next hops are addresses only routers carry); "
             "whether it is necessary is open (no counterexample known on the repaired code; the rig's misconfigured families "
             "terminate in model and implementation). Python's own recursion limit is outside the model. Liveness is PARTIAL: "
-            "warm caches for arbitrary paths, cold caches only for one switched LAN with silent other ports; cold caches across "
-            "routers and the service exchange with cold caches are checked by oracle (d) on the implementation, not proved. "
+            "warm caches for arbitrary paths, cold caches only for one switched LAN and for host - router - host over direct "
+            "cables; cold caches over switched LANs behind routers, several routers, firewalls, and the service exchange with "
+            "cold caches are checked by oracle (d) on the implementation, not proved. "
             "Metrics are Int in the model (float inf/nan not modelled). Rule lists are abstracted to one verdict per payload "
             "class (router: default ACL plus one permit flag; firewall: six lists x three classes); an air space frequency is "
             "modelled for two access points only; link / air space capacity is outside the forwarding model.",
@@ -51,7 +54,8 @@ MANIFEST = {
 }
 MODULES = ["PrimaiteModel.Props.C08", "PrimaiteModel.Props.C08Forward", "PrimaiteModel.Lemmas.ForwardInv",
            "PrimaiteModel.Props.C08Addressee", "PrimaiteModel.Props.C08Liveness", "PrimaiteModel.Props.C08FuelMono",
-           "PrimaiteModel.Props.C08Termination", "PrimaiteModel.Props.C08RouteOps", "PrimaiteModel.Props.C08Cold"]
+           "PrimaiteModel.Props.C08Termination", "PrimaiteModel.Props.C08RouteOps", "PrimaiteModel.Props.C08Cold",
+           "PrimaiteModel.Props.C08ColdRouter"]
 EXE = "drv_c08"
 
 
